@@ -29,7 +29,10 @@ type World struct {
 	lastHwm uint64
 	lastDwm uint64
 	finalsN int
-	crashed bool // marks were lost in a crash restart
+	crashed bool // a crash restart happened in this scenario
+	// DA-inclusion marks (header hash / data commitment) that were present right before a crash restart and absent
+	// right after it
+	lostH, lostD map[string]bool
 	refused int
 	okData  int // accepting data ticks (empty script) since the last committed block / non-accepting data tick
 	// a crash may have taken the durable record of an acknowledgement with it: the restarted node then counts blocks
@@ -146,6 +149,7 @@ func Run(c *hx.Ctx) {
 			w.ts = o.I64("gt")
 			w.lastInc, w.lastHwm, w.lastDwm, w.crashed, w.refused, w.okData = 0, 0, 0, false, 0, 0
 			w.lostAckH, w.lostAckD = false, false
+			w.lostH, w.lostD = map[string]bool{}, map[string]bool{}
 			c.Emit("%s", w.start(nil, ""))
 			if !w.dead {
 				// heights below the initial height need no inclusion: the reported height starts at initialHeight-1,
@@ -243,6 +247,47 @@ func Run(c *hx.Ctx) {
 				w.lostAckH = false
 			}
 			w.monitorSubmit(o.Verb, n0, left)
+		case "subhreal", "subdreal":
+			// the UNMODIFIED HeaderSubmissionLoop / DataSubmissionLoop goroutine (1 ms ticker): start it, wait until
+			// nothing of its kind is pending any more, stop it. The scripted answers are consumed tick after tick; once
+			// they are used up the DA double accepts, so the loop always comes to rest with an empty pending range.
+			e := w.env
+			isData := o.Verb == "subdreal"
+			w.da.Script = nil
+			if s := o.Str("script"); s != "" && s != "-" {
+				w.da.Script = strings.Split(s, "|")
+			}
+			n0 := len(w.da.Submits)
+			w.from = e.DS.NumWrites()
+			quiet := w.runRealSubmitter(isData)
+			var calls []string
+			for _, s := range w.da.Submits[n0:] {
+				var hs []string
+				for _, b := range s.Blobs {
+					k, h, _, _ := decodeBlob(b)
+					hs = append(hs, fmt.Sprintf("%s%d", k, h))
+				}
+				calls = append(calls, fmt.Sprintf("%s:%s:%d:%d", strings.Join(hs, "+"), s.Answer, s.Height, s.Accepted))
+			}
+			cs := "-"
+			if len(calls) > 0 {
+				cs = strings.Join(calls, ";")
+			}
+			left := len(w.da.Script)
+			w.da.Script = nil
+			out := "quiescent"
+			if !quiet {
+				out = "busy"
+				c.Report("C06/real-loop/does-not-come-to-rest", fmt.Sprintf("%s: still pending after 3 s of ticks with an accepting DA layer: %s", o.Verb, w.state()))
+			}
+			c.Emit("%s out=%s calls=%s %s w=%s", o.Verb, out, cs, w.state(), bm.DescribeWrites(e.DS, w.from))
+			if isData {
+				w.okData, w.lostAckD = 2, false
+				w.monitorSubmit("subd", n0, left)
+			} else {
+				w.lostAckH = false
+				w.monitorSubmit("subh", n0, left)
+			}
 		case "incl", "inclreal":
 			e := w.env
 			w.from = e.DS.NumWrites()
@@ -287,7 +332,21 @@ func Run(c *hx.Ctx) {
 			}
 			img := e.DS.ImageAt(keep)
 			reported := w.incAt
+			hmBefore, dmBefore := e.M.HeaderCache().VerifDAIncluded(), e.M.DataCache().VerifDAIncluded()
 			c.Emit("%s", w.start(img, root))
+			if o.Verb == "crash" && !w.dead {
+				hmAfter, dmAfter := w.env.M.HeaderCache().VerifDAIncluded(), w.env.M.DataCache().VerifDAIncluded()
+				for k := range hmBefore {
+					if _, ok := hmAfter[k]; !ok {
+						w.lostH[k] = true
+					}
+				}
+				for k := range dmBefore {
+					if _, ok := dmAfter[k]; !ok {
+						w.lostD[k] = true
+					}
+				}
+			}
 			if root != "" && w.env != nil {
 				w.env.Options.Root = ""
 			}
@@ -351,6 +410,41 @@ func (w *World) runRealIncluder() {
 	case <-time.After(3 * time.Second):
 		w.c.Report("C13/stop/da-includer-loop-did-not-return", "DAIncluderLoop still running 3 s after cancel")
 	}
+}
+
+// the unmodified submission loop goroutine of one kind: run it until nothing of that kind is pending (bounded), stop it
+func (w *World) runRealSubmitter(isData bool) bool {
+	e := w.env
+	ctx, cancel := context.WithCancel(context.Background())
+	done := make(chan struct{})
+	go func() {
+		defer close(done)
+		if isData {
+			e.M.DataSubmissionLoop(ctx)
+		} else {
+			e.M.HeaderSubmissionLoop(ctx)
+		}
+	}()
+	pending := func() uint64 {
+		nh, nd := e.M.VerifPendingCounts()
+		if isData {
+			return nd
+		}
+		return nh
+	}
+	deadline := time.Now().Add(3 * time.Second)
+	for pending() != 0 && time.Now().Before(deadline) {
+		time.Sleep(100 * time.Microsecond)
+	}
+	quiet := pending() == 0
+	time.Sleep(3 * time.Millisecond) // a few idle ticks: anything they did would show
+	cancel()
+	select {
+	case <-done:
+	case <-time.After(3 * time.Second):
+		w.c.Report("C13/stop/submission-loop-did-not-return", "submission loop still running 3 s after cancel")
+	}
+	return quiet
 }
 
 // reachable: the largest h such that every block in (dainc, h] is stored and has its parts marked
@@ -554,12 +648,34 @@ func (w *World) checkRefusal() {
 	switch {
 	case ih > 1 && (nh >= limit && nh > waitH || nd >= limit && nd > waitD) && uint64(e.Height())-(ih-1) < limit:
 		c.Report("C08/refuses/initial-height-counted-as-pending", fmt.Sprintf("limit %d, waiting headers %d data %d, counters %d/%d", limit, waitH, waitD, nh, nd))
-	case nd >= limit && waitD < limit && nh < limit && w.okData < 2:
-		// the data counter is chain height minus watermark: it counts the empty blocks above the watermark until the
-		// data loop has passed over them, which takes one accepting tick for the non-empty blocks before them and one
-		// more for trailing empty blocks; only a refusal that survives two accepting data ticks is unjustified
 	case nd >= limit && waitD < limit && nh < limit:
-		c.Report("C08/refuses/empty-blocks-counted-as-pending-data", fmt.Sprintf("limit %d, non-empty data waiting %d, counter %d", limit, waitD, nd))
+		// the data counter is chain height minus data watermark: besides the non-empty blocks whose data is not yet
+		// acknowledged it counts the EMPTY blocks above the watermark until the data loop has passed over them (one
+		// accepting tick for the data in front of them, one more for trailing empty blocks)
+		_, dm := e.M.VerifLastSubmitted()
+		first := dm + 1
+		if first < ih {
+			first = ih
+		}
+		var empties, nonEmpty uint64
+		for k := first; k <= e.Height(); k++ {
+			if _, d, err := e.Store.GetBlockData(ctx, k); err == nil && len(d.Txs) == 0 {
+				empties++
+			} else {
+				nonEmpty++
+			}
+		}
+		switch {
+		case nonEmpty >= limit || empties == 0:
+			c.Report("C08/refuses/other", fmt.Sprintf("limit %d, waiting headers %d data %d, counters %d/%d, above the data watermark: %d non-empty, %d empty", limit, waitH, waitD, nh, nd, nonEmpty, empties))
+		case w.okData >= 2:
+			// two accepting data ticks since the last committed block: the loop had its chance (defect repaired by 5533199)
+			c.Report("C08/refuses/empty-blocks-counted-as-pending-data", fmt.Sprintf("limit %d, non-empty data waiting %d, counter %d after %d accepting data ticks", limit, waitD, nd, w.okData))
+		default:
+			// by the letter of the property nothing is "genuinely waiting" here: the refusal exists only because empty
+			// blocks are counted until the next data tick(s) (recorded finding)
+			c.Report("C08/refuses/empty-blocks-counted-until-the-data-loop-passes-them", fmt.Sprintf("limit %d: every header is acknowledged, %d non-empty and %d empty blocks above the data watermark %d, counter %d, %d accepting data ticks since the last block", limit, nonEmpty, empties, dm, nd, w.okData))
+		}
 	default:
 		c.Report("C08/refuses/other", fmt.Sprintf("limit %d, waiting headers %d data %d, counters %d/%d", limit, waitH, waitD, nh, nd))
 	}
@@ -619,18 +735,28 @@ func (w *World) monitorInclusion(fin []uint64) {
 		}
 		if len(d.Txs) > 0 {
 			ds := w.onDA("d", k)
-			// the data marks are keyed by the commitment, which two blocks with the same transaction list share
-			shared := ""
+			// the data marks are keyed by the commitment, which two blocks with the same transaction list share: the
+			// suffix is given only when that explains the violation - ANOTHER block with the same commitment has its
+			// signed data on the DA layer (resp. at exactly the recorded DA height)
+			var twinOnDA []uint64
 			for j := e.Options.InitialHeight; j <= e.Height(); j++ {
 				if _, dj, err := e.Store.GetBlockData(ctx, j); err == nil && j != k && len(dj.Txs) > 0 && string(dj.DACommitment()) == string(d.DACommitment()) {
-					shared = "/commitment-shared-by-two-blocks"
+					twinOnDA = append(twinOnDA, w.onDA("d", j)...)
 				}
 			}
 			if len(ds) == 0 {
-				c.Report("C07/sound/data-not-on-da"+shared, fmt.Sprintf("height %d reported DA-included", k))
+				sfx := ""
+				if len(twinOnDA) > 0 {
+					sfx = "/commitment-shared-by-two-blocks"
+				}
+				c.Report("C07/sound/data-not-on-da"+sfx, fmt.Sprintf("height %d reported DA-included", k))
 			}
 			if !contains(ds, rd) {
-				c.Report("C07/recorded-da-height/data"+shared, fmt.Sprintf("height %d recorded %d, blobs at %v", k, rd, ds))
+				sfx := ""
+				if contains(twinOnDA, rd) {
+					sfx = "/commitment-shared-by-two-blocks"
+				}
+				c.Report("C07/recorded-da-height/data"+sfx, fmt.Sprintf("height %d recorded %d, blobs at %v", k, rd, ds))
 			}
 		}
 	}
@@ -655,12 +781,34 @@ func (w *World) monitorInclusion(fin []uint64) {
 	if inc < all {
 		if ih := e.Options.InitialHeight; ih > 1 && inc < ih-1 {
 			c.Report("C07/eventually/initial-height-above-1", fmt.Sprintf("both parts of all blocks %d..%d are on the DA layer and below the watermarks, reported %d: the inclusion loop asks for height %d, which does not exist", ih, all, inc, inc+1))
-		} else if w.crashed {
+		} else if w.markLost(first) {
 			c.Report("C07/eventually/marks-lost-in-crash-restart", fmt.Sprintf("both parts of all blocks up to %d are on the DA layer and below the watermarks, reported %d", all, inc))
 		} else {
 			c.Report("C07/eventually/other", fmt.Sprintf("both parts of all blocks up to %d are on the DA layer, reported %d", all, inc))
 		}
 	}
+}
+
+// markLost: the inclusion loop is stalled at height k because a mark of block k (header hash, or data commitment of a
+// non-empty block) that existed before a crash restart is gone since
+func (w *World) markLost(k uint64) bool {
+	e := w.env
+	sh, d, err := e.Store.GetBlockData(context.Background(), k)
+	if err != nil {
+		return false
+	}
+	hm, dm := e.M.HeaderCache().VerifDAIncluded(), e.M.DataCache().VerifDAIncluded()
+	hk := sh.Hash().String()
+	if _, ok := hm[hk]; !ok && w.lostH[hk] {
+		return true
+	}
+	if len(d.Txs) > 0 {
+		dk := d.DACommitment().String()
+		if _, ok := dm[dk]; !ok && w.lostD[dk] {
+			return true
+		}
+	}
+	return false
 }
 
 func contains(l []uint64, x uint64) bool {
